@@ -194,20 +194,20 @@ def renderRowModelPinned (cells : List Str) : Str := rowModel (cells.map nlToSpa
 
 /-! ## GFM reading spec -/
 
-/-- left-to-right scan of a row: `\|` is a literal pipe of the cell, a backslash followed by
-any other character is kept together with that character (so `\\|` is an escaped backslash
-and then a delimiting pipe, as in cmark-gfm), an unescaped `|` ends the cell.
-`cur` is the current cell, reversed.  n unescaped pipes give n+1 pieces. -/
+/-- left-to-right scan of a row, the pipe-escape pass of GFM tables ("it is possible to include a
+pipe in a cell's content by escaping it, including inside other inline spans"; cmark-gfm
+`unescape_pipes`, markdown-it `escapedSplit`): a `|` that directly follows a backslash never ends
+a cell, and that pair `\|` stands for a literal pipe of the cell; every other byte — a backslash
+in front of anything else, at the end of the line, or in front of another backslash — is cell
+text as it stands (inline Markdown inside a cell is not interpreted); a `|` not preceded by a
+backslash ends the cell.  So `\\|` is a backslash followed by a literal pipe: the cell text `\|`
+is written `\\|` by `escPipe` and read back as `\|`.
+`cur` is the current cell, reversed.  n delimiting pipes give n+1 pieces. -/
 def splitPipes : Str → Str → List Str
   | [], cur => [cur.reverse]
+  | 92 :: 124 :: rest, cur => splitPipes rest (124 :: cur)
   | c :: rest, cur =>
-    if c = 92 then
-      match rest with
-      | [] => [(92 :: cur).reverse]
-      | d :: rest' =>
-        if d = 124 then splitPipes rest' (124 :: cur)
-        else splitPipes rest' (d :: 92 :: cur)
-    else if c = 124 then cur.reverse :: splitPipes rest []
+    if c = 124 then cur.reverse :: splitPipes rest []
     else splitPipes rest (c :: cur)
 
 def dropLastEmpty : List Str → List Str
